@@ -323,3 +323,69 @@ def gen_flatten3_discordant(rnd):
     s = Spec(decl, [e], rank_order=ro, partitioning={"Z": parts}, loop_order={"Z": lo},
              tags=["flatten", "flatten-discordant", "flatten3-discordant-multi"])
     return s
+
+
+def gen_flatten_lookup(rnd):
+    """A flattening whose loop fetches a fiber of a tensor OUTSIDE the
+    flattening, which is then partitioned (dynamically or statically) below
+    an unrelated loop:
+        Z[n, p] = A[k, m] * B[k, n] * C[p];  (M, K): flatten(); [MK: occupancy(A.k)];
+        N: occupancy(B.k) | shape(k);  loop order [MK.., P, N..]."""
+    from .einsum import _acc
+    from ..spec import Term, Einsum as E
+    f1, f2, x, y = rnd.sample(["K", "M", "N", "P", "J", "Q"], 4)
+    a_ranks = [f1, f2]
+    rnd.shuffle(a_ranks)
+    shared = rnd.choice([f1, f2])
+    b_ranks = [shared, x]
+    rnd.shuffle(b_ranks)
+    facs = [_acc("A", a_ranks), _acc("B", b_ranks)]
+    decl = {"A": a_ranks, "B": b_ranks}
+    extra = rnd.random() < 0.75
+    if extra:
+        c_ranks = [y] + ([shared] if rnd.random() < 0.2 else [])
+        decl["C"] = c_ranks
+        facs.append(_acc("C", c_ranks))
+    rnd.shuffle(facs)
+    out_ranks = [x] + ([y] if extra and rnd.random() < 0.7 else [])
+    other = f1 if shared == f2 else f2
+    if rnd.random() < 0.3:
+        out_ranks.append(other)
+    rnd.shuffle(out_ranks)
+    decl["Z"] = out_ranks
+    e = E(_acc("Z", out_ranks), [Term("times", facs)])
+    tup = [f1, f2]
+    rnd.shuffle(tup)
+    flat = "".join(tup)
+    parts = {"(%s)" % ", ".join(tup): ["flatten()"]}
+    tags = ["flatten", "flatten-lookup"]
+    if rnd.random() < 0.6:
+        parts[flat] = ["uniform_occupancy(A.%d)" % rnd.randint(2, 6)]
+        fl = [flat + "1", flat + "0"]
+        tags.append("flatten-occupancy")
+    else:
+        fl = [flat]
+    kind = rnd.choice(["occ", "occ", "shape", "none"])
+    if kind == "occ":
+        parts[x] = ["uniform_occupancy(B.%d)" % rnd.randint(2, 5)]
+        xl = [x + "1", x + "0"]
+        tags.append("lookup-then-occupancy")
+    elif kind == "shape":
+        parts[x] = ["uniform_shape(%d)" % rnd.randint(2, 4)]
+        xl = [x + "1", x + "0"]
+        tags.append("lookup-then-shape")
+    else:
+        xl = [x]
+    mid = [y] if extra else []
+    if rnd.random() < 0.7:
+        lo = fl + mid + xl
+    else:
+        lo = interleave(rnd, [fl, mid, xl], True) if mid else fl + xl
+    ro = {}
+    for t, rs in decl.items():
+        q = list(rs)
+        if rnd.random() < 0.5:
+            rnd.shuffle(q)
+        ro[t] = q
+    return Spec(decl, [e], rank_order=ro, partitioning={"Z": parts}, loop_order={"Z": lo},
+                tags=tags)
